@@ -352,6 +352,17 @@ example :
     bandMask exBand [1/5, 2/5, 4/5] = .ok [true, true, false] := by
   refine ⟨?_, ?_, ?_⟩ <;> decide +kernel
 
+/-- **as coded vs as documented.**  A uniformly bright model (flux ∝ aperture²: 100, 400, 1600 mJy at 200, 400, 800 AU)
+    has the half-peak-brightness radius 800 AU *on its own tabulated profile* (first conjunct: the last sigma equals the
+    maximum).  Seen through `theta = 1″` at 0.2, 0.4, 0.8 kpc (aperture radii 200, 400, 800 AU) "larger than the
+    aperture" would mark the first two distances; the code marks only the first (second conjunct), because it takes the
+    profile of `F(theta·d)/d²` over the trial distances — here the constant 2500 — instead.  (Confirmed on the real
+    code: `fitter.models.extended[0, :, 0] = [True, False, False]`, `ConvolvedFluxes.find_radius_sigma(0.5) = 800 AU`.) -/
+example : findRadiusSigma (1/2 : ℚ) [200, 400, 800] [100, 400, 1600] = some (EF.fin 800) ∧
+    bandMask ({ theta := 1, aps := [200, 400, 800], row := [100, 400, 1600] } : BandTab ℚ) [1/5, 2/5, 4/5]
+      = .ok [true, false, false] := by
+  refine ⟨?_, ?_⟩ <;> decide +kernel
+
 /-- the profile and the radius of that band on the three-point grid (per-distance fluxes 1/0.04, 100/0.16,
     10000/0.64): the last increment exceeds half the maximum, so the radius is the last aperture (`RES_radius_last`) -/
 example : sigmaProfile ([200, 400, 800] : List ℚ) [25, 625, 15625] = [EF.fin (1/1600), EF.fin (1/200), EF.fin (1/32)] ∧
